@@ -914,12 +914,19 @@ impl HttpRequest for Http {
                         Some(e)
                     }
                     "none" => None,
+                    // an arbitrary header value where the signature should be (hostile or broken server / middlebox)
+                    "rawetag" => Some(hexv(&o["etag"])),
                     "badsig" => {
                         let mut e = sign(&key_for(*kid), &body, &rbody);
                         e[10] = if e[10] == b'0' { b'1' } else { b'0' };
                         Some(e)
                     }
                     "otherkey" => Some(sign(&key_for(kid.wrapping_add(1000)), &body, &rbody)),
+                    // signed with another key the client is provisioned with (a historical one), not the one the request named
+                    "histkey" => {
+                        let other = w.cup_keys.as_ref().and_then(|(_, h)| h.first().cloned()).unwrap_or(kid.wrapping_add(1000));
+                        Some(sign(&key_for(other), &body, &rbody))
+                    }
                     "bodytamper" => {
                         let e = sign(&key_for(*kid), &body, &rbody);
                         // change the response after signing, keeping it a well-formed document
@@ -939,7 +946,7 @@ impl HttpRequest for Http {
                     }
                 };
                 if let Some(e) = etag {
-                    rb = rb.header("ETag", http::HeaderValue::from_bytes(&e).unwrap());
+                    if let Ok(hv) = http::HeaderValue::from_bytes(&e) { rb = rb.header("ETag", hv); }
                 }
             }
             Ok(rb.body(rbody).unwrap())
@@ -1078,7 +1085,7 @@ pub fn run_sm(c: &Value) -> RunResult {
         reask_causes: 0,
         wait_timers: vec![],
         pending_requests: 0,
-        cup_keys: if cupv.is_null() { None } else { Some((cupv["latest"].as_u64().unwrap(), vec![])) },
+        cup_keys: if cupv.is_null() { None } else { Some((cupv["latest"].as_u64().unwrap(), arr(&cupv, "hist").iter().filter_map(|x| x.as_u64()).collect())) },
         panicked: None,
     }));
     let w2 = world.clone();
